@@ -804,7 +804,7 @@ def run(ctx):
                 'scene with an integer signed-permutation/scale/translation matrix, re-loaded from written XML; texcoords with non-zero '
                 '(rarely zero) UV area; 3% out-of-range indices. Non-trivial = some vertex occurs in one corner position of at least two '
                 'triangles and at least two distinct accumulated directions occur; distinct = distinct case description. ' + BOUNDS)
-    ncases = ctx.n(3000, 40000)
+    ncases = ctx.n(2500, 40000)
     cases = [dict(c) for c in CORPUS] + [gen_case(ctx.rng, big=(i % 7 == 0)) for i in range(ncases)]
     prepared = [prepare(c) for c in cases]
     lines = []
